@@ -1,11 +1,14 @@
 (* Model of the idle timeout of one connection of hio.core.http.serving.Server:
    the Remoter's tymer (hio.core.tcp.serving.Remoter.__init__/refresh over
    hio.base.tyming.Tymer), the check in http Server.serviceConnects
-   (`ix.tymeout > 0.0 and ix.tymer.expired`), and Requestant.checkPersisted
-   zeroing the Remoter's tymeout.  As the code is after the fix commits: the
-   server's tymeout reaches the Remoter (D13), refresh restarts the tymer from
-   the current tyme, RemoterTls refreshes like Remoter (so plain and TLS are
-   the same model).  Virtual tyme is Z.  No proofs here. *)
+   (`ix.tymeout > 0.0 and ix.tymer.expired`), Requestant.checkPersisted
+   zeroing the Remoter's tymeout, the response queued in .txbs and
+   Remoter.serviceSends/send (one send attempt per pass, refresh only when the
+   kernel took bytes), and serviceReps closing a non-persistent connection once
+   its response is out.  As the code is after the fix commits: the server's
+   tymeout reaches the Remoter (D13), refresh restarts the tymer from the
+   current tyme, RemoterTls refreshes like Remoter (so plain and TLS are the
+   same model).  Virtual tyme is Z.  No proofs here. *)
 From Hio Require Import Base.Prelude.
 Local Open Scope Z_scope.
 
@@ -13,103 +16,158 @@ Local Open Scope Z_scope.
 Inductive action :=
 | Quiet                (* nothing *)
 | Rx (chunks : N)      (* that many recv()s return bytes of an unfinished request head *)
-| Req (chunks : N).    (* likewise, and the last one completes a persistent request *)
+| Req (chunks : N)     (* likewise, and the last one completes a persistent request *)
+| ReqClose (chunks : N). (* likewise, completing a non-persistent request (Connection: close) *)
 
 Definition has_traffic (a : action) : bool :=
-  match a with Quiet => false | Rx k | Req k => (0 <? k)%N end.
+  match a with Quiet => false | Rx k | Req k | ReqClose k => (0 <? k)%N end.
+
+(* one pass: tyme, client action, and how many bytes the kernel accepts from one
+   send() in this pass (0 = would block: the peer is not reading) *)
+Definition step := (Z * action * N)%type.
 
 Record conn := { st : Z;            (* tymer._start *)
                  sp : Z;            (* tymer._stop *)
                  tmo : Z;           (* remoter.tymeout *)
                  closed : bool;     (* closeConnection was called *)
-                 persisted : bool;  (* requestant.persisted *)
-                 last : Z }.        (* ghost: tyme of the latest received traffic (accept tyme at first) *)
+                 timedout : bool;   (* ... by the idle check *)
+                 persisted : bool;  (* some request was persistent: tymeout zeroed for good *)
+                 responding : bool; (* a non-persistent request is complete: no parser any more *)
+                 pend : N;          (* len(remoter.txbs) *)
+                 last : Z }.        (* ghost: tyme of the latest pass in which bytes moved (accept tyme at first) *)
 
 (* Remoter(tymeout=T) created at tyme t0: Tymer(duration=T) started at t0 *)
 Definition accept (T t0 : Z) : conn :=
-  {| st := t0; sp := t0 + T; tmo := T; closed := false; persisted := false; last := t0 |}.
+  {| st := t0; sp := t0 + T; tmo := T; closed := false; timedout := false; persisted := false;
+     responding := false; pend := 0; last := t0 |}.
 
 (* Remoter.refresh = tymer.start(): same duration, from now *)
 Definition refresh (now : Z) (c : conn) : conn :=
-  {| st := now; sp := now + (sp c - st c); tmo := tmo c; closed := closed c;
-     persisted := persisted c; last := now |}.
+  {| st := now; sp := now + (sp c - st c); tmo := tmo c; closed := closed c; timedout := timedout c;
+     persisted := persisted c; responding := responding c; pend := pend c; last := now |}.
 
 Definition expired (now : Z) (c : conn) : bool := sp c <=? now.   (* tyme >= _stop *)
 
-Definition close (c : conn) : conn :=
-  {| st := st c; sp := sp c; tmo := tmo c; closed := true; persisted := persisted c; last := last c |}.
+Definition close (idle : bool) (c : conn) : conn :=
+  {| st := st c; sp := sp c; tmo := tmo c; closed := true; timedout := idle; persisted := persisted c;
+     responding := responding c; pend := pend c; last := last c |}.
 
+(* checkPersisted of a persistent request: remoter.tymeout = 0.0 *)
 Definition persist (c : conn) : conn :=
-  {| st := st c; sp := sp c; tmo := 0; closed := closed c; persisted := true; last := last c |}.
+  {| st := st c; sp := sp c; tmo := 0; closed := closed c; timedout := timedout c; persisted := true;
+     responding := responding c; pend := pend c; last := last c |}.
+Definition respond (c : conn) : conn :=
+  {| st := st c; sp := sp c; tmo := tmo c; closed := closed c; timedout := timedout c; persisted := persisted c;
+     responding := true; pend := pend c; last := last c |}.
+Definition set_pend (n : N) (c : conn) : conn :=
+  {| st := st c; sp := sp c; tmo := tmo c; closed := closed c; timedout := timedout c; persisted := persisted c;
+     responding := responding c; pend := n; last := last c |}.
 
-(* one Server.service() at tyme [now]: serviceConnects (timeout check) comes
-   before serviceReceivesAllIx (refresh) and serviceReqs (checkPersisted) *)
-Definition pass (now : Z) (a : action) (c : conn) : conn :=
-  if closed c then c
-  else if (0 <? tmo c) && expired now c then close c
-  else
-    let c1 := if has_traffic a then refresh now c else c in
-    match a with Req _ => persist c1 | _ => c1 end.
+(* serviceReqs + the Responder's first service: a completed request queues the R response bytes *)
+Definition requests (R : N) (a : action) (c : conn) : conn :=
+  if responding c then c
+  else match a with
+       | Req _ => persist (set_pend (pend c + R)%N c)
+       | ReqClose _ => respond (set_pend (pend c + R)%N c)
+       | _ => c
+       end.
 
-Fixpoint run (c : conn) (sched : list (Z * action)) : conn :=
+(* Remoter.serviceSends: one send of all of .txbs; refresh only if the kernel took bytes *)
+Definition sends (now : Z) (cap : N) (c : conn) : conn :=
+  let n := N.min cap (pend c) in
+  if (0 <? n)%N then refresh now (set_pend (pend c - n)%N c) else c.
+
+(* one Server.service() at tyme [now]: serviceConnects (timeout check), serviceReceivesAllIx
+   (refresh), serviceReqs (checkPersisted, response queued), serviceReps (non-persistent
+   response completely out: close), serviceSendsAllIx *)
+Definition pass (R : N) (p : step) (c : conn) : conn :=
+  match p with
+  | (now, a, cap) =>
+    if closed c then c
+    else if (0 <? tmo c) && expired now c then close true c
+    else
+      let c1 := if has_traffic a then refresh now c else c in
+      let c2 := requests R a c1 in
+      if responding c2 && (pend c2 =? 0)%N then close false c2
+      else sends now cap c2
+  end.
+
+Fixpoint run (R : N) (c : conn) (sched : list step) : conn :=
   match sched with
   | [] => c
-  | (now, a) :: r => run (pass now a c) r
+  | p :: r => run R (pass R p c) r
   end.
 
-(* ---------- the property's vocabulary, as functions of the schedule alone ---------- *)
-(* tyme of the latest pass with traffic (accept tyme when none) *)
-Fixpoint last_rx (t : Z) (sched : list (Z * action)) : Z :=
-  match sched with
-  | [] => t
-  | (now, a) :: r => last_rx (if has_traffic a then now else t) r
+(* ---------- the property's vocabulary ---------- *)
+(* bytes actually move in pass p from state c: something is received, or there is
+   output pending (after this pass's request handling) and the kernel accepts some of it *)
+Definition moved (R : N) (p : step) (c : conn) : bool :=
+  match p with
+  | (now, a, cap) =>
+    has_traffic a ||
+    (let c2 := requests R a c in (0 <? pend c2)%N && (0 <? cap)%N && negb (responding c2 && (pend c2 =? 0)%N))
   end.
+(* a pass in which the client sends nothing and the kernel accepts nothing *)
+Definition blocked (p : step) : bool :=
+  match p with (_, a, cap) => match a with Quiet => (cap =? 0)%N | _ => false end end.
 Definition is_req (a : action) : bool := match a with Req _ => true | _ => false end.
-Definition no_req (sched : list (Z * action)) : bool := forallb (fun p => negb (is_req (snd p))) sched.
-(* every pass comes less than T after the latest traffic before it *)
-Fixpoint busy (T t : Z) (sched : list (Z * action)) : Prop :=
+Definition no_req (sched : list step) : bool := forallb (fun p => negb (is_req (snd (fst p)))) sched.
+(* every pass of the still open connection comes less than T after the latest pass in which bytes moved *)
+Fixpoint busy (R : N) (T : Z) (c : conn) (sched : list step) : Prop :=
   match sched with
   | [] => True
-  | (now, a) :: r => now < t + T /\ busy T (if has_traffic a then now else t) r
+  | p :: r => (closed c = false -> fst (fst p) < last c + T) /\ busy R T (pass R p c) r
   end.
 
 (* ---------- correspondence ---------- *)
-Record case := { k_T : Z; k_t0 : Z; k_sched : list (Z * action);
-                 (* per pass: closed, remoter.tymeout, and tymer start/stop while open and not persisted (else 0 0) *)
-                 k_obs : list (bool * Z * Z * Z) }.
+Record case := { k_T : Z; k_t0 : Z; k_R : N; k_sched : list step;
+                 (* per pass: closed, remoter.tymeout, and while open: tymer start/stop, len(txbs) (else 0 0 0) *)
+                 k_obs : list (bool * Z * Z * Z * N) }.
 
-Definition view (c : conn) : bool * Z * Z * Z :=
-  if closed c || persisted c then (closed c, tmo c, 0, 0) else (closed c, tmo c, st c, sp c).
+Definition view (c : conn) : bool * Z * Z * Z * N :=
+  if closed c then (true, tmo c, 0, 0, 0%N) else (false, tmo c, st c, sp c, pend c).
 
-Fixpoint trace (c : conn) (sched : list (Z * action)) : list (bool * Z * Z * Z) :=
+Fixpoint trace (R : N) (c : conn) (sched : list step) : list (bool * Z * Z * Z * N) :=
   match sched with
   | [] => []
-  | (now, a) :: r => let c1 := pass now a c in view c1 :: trace c1 r
+  | p :: r => let c1 := pass R p c in view c1 :: trace R c1 r
   end.
 
-Definition obs_eqb (x y : bool * Z * Z * Z) : bool :=
+Definition obs_eqb (x y : bool * Z * Z * Z * N) : bool :=
   match x, y with
-  | (c1, t1, a1, b1), (c2, t2, a2, b2) => Bool.eqb c1 c2 && Z.eqb t1 t2 && Z.eqb a1 a2 && Z.eqb b1 b2
+  | (c1, t1, a1, b1, n1), (c2, t2, a2, b2, n2) =>
+    Bool.eqb c1 c2 && Z.eqb t1 t2 && Z.eqb a1 a2 && Z.eqb b1 b2 && N.eqb n1 n2
   end.
 
 Definition check_case (k : case) : bool :=
-  list_eqb obs_eqb (trace (accept (k_T k) (k_t0 k)) (k_sched k)) (k_obs k).
+  list_eqb obs_eqb (trace (k_R k) (accept (k_T k) (k_t0 k)) (k_sched k)) (k_obs k).
 
-(* branch classifier *)
-Definition branch (now : Z) (a : action) (c : conn) : nat :=
-  let armed := 0 <? tmo c in
-  let edge := now =? sp c - 1 in
-  (if closed c then 0
-   else if armed && expired now c then 1
-   else match a with
-        | Quiet => if persisted c then 2 else if armed then 3 else 4
-        | Rx _ => if persisted c then 5 else if armed then (if edge then 6 else 7) else 8
-        | Req _ => if persisted c then 9 else 10
-        end)%nat.
-Fixpoint branches (c : conn) (sched : list (Z * action)) : list nat :=
+(* branch classifier: per pass one id for the timeout/receive/request part and one for the send part *)
+Definition branch (R : N) (p : step) (c : conn) : list nat :=
+  match p with
+  | (now, a, cap) =>
+    let armed := 0 <? tmo c in
+    let edge := now =? sp c - 1 in
+    let c2 := requests R a (if has_traffic a then refresh now c else c) in
+    let stuck := (0 <? pend c)%N in
+    let out := (0 <? pend c2)%N in
+    let some := (0 <? cap)%N in
+    let part := (cap <? pend c2)%N in
+    let done := responding c2 && (pend c2 =? 0)%N in
+    (if closed c then [0]
+     else if armed && expired now c then [if stuck then 11 else 1]
+     else (match a with
+           | Quiet => if persisted c then 2 else if armed then 3 else 4
+           | Rx _ => if persisted c then 5 else if armed then (if edge then 6 else 7) else 8
+           | Req _ => if responding c then 17 else if persisted c then 9 else 10
+           | ReqClose _ => if responding c then 17 else 16
+           end)
+          :: [if done then 12 else if out then (if some then (if part then 13 else 14) else 15) else 18])%nat
+  end.
+Fixpoint branches (R : N) (c : conn) (sched : list step) : list nat :=
   match sched with
   | [] => []
-  | (now, a) :: r => branch now a c :: branches (pass now a c) r
+  | p :: r => branch R p c ++ branches R (pass R p c) r
   end.
-Definition n_branches : nat := 11.
-Definition case_branches (k : case) : list nat := branches (accept (k_T k) (k_t0 k)) (k_sched k).
+Definition n_branches : nat := 19.
+Definition case_branches (k : case) : list nat := branches (k_R k) (accept (k_T k) (k_t0 k)) (k_sched k).
